@@ -5,7 +5,7 @@ From Settlus Require Import Base.Prelude Base.Hex Base.Dec Oracle.Arith Settleme
 
 Definition snap_of_init (c : cstate) : snap :=
   mkSnap (c_h c) (c_s c) None (o_prevotes (c_o c)) (o_votes (c_o c)) (o_deleg (c_o c)) (o_miss (c_o c))
-         (o_vals (c_o c)) (o_pool (c_o c)) [] [] [] [] true.
+         (o_vals (c_o c)) (o_pool (c_o c)) [] [] [] [] true true.
 
 (* generic walk: [f k height prev block_events sn] is called at every end-block that has a snapshot,
    with the events of that block (begin .. end) *)
@@ -72,7 +72,7 @@ Definition chk_C15 (c : case) (k : Z) (prev : snap) (blk : list event) (blko : l
           match find_val (sn_vals sn) (v_addr v) with
           | Some v' => ((v_tokens v' =? v_tokens v) || memZ (v_addr v) (env_restaked blk))
                        && (implb (v_jailed v') (v_jailed v || memZ (v_addr v) ej))
-          | None => false
+          | None => (v_tokens v =? 0) || memZ (v_addr v) (env_restaked blk)   (* x/staking removes an emptied validator *)
           end) (sn_vals prev) then [] else [1])
     ++ (if forallb (fun m : Z * Z =>
               match zlookup (fst m) (sn_miss sn) with Some m' => snd m <=? m' | None => false end) (sn_miss prev)
@@ -452,13 +452,14 @@ Definition chk_round (pr : oparams) (sn : snap) : list Z :=
 
 Definition chk_books (sn : snap) : list Z :=
   (if sn_inv sn then [] else [90])
-  ++ (if forallb (fun c : bytes * Z =>
+  ++ (if negb (sn_books sn) then [] else
+      if forallb (fun c : bytes * Z =>
           snd c =? sumZ (map (fun x : Z * bytes * Z => if bytes_eqb (snd (fst x)) (fst c) then snd x else 0) (sn_owed_val sn))
                    + coin_get (sn_owed_comm sn) (fst c)) (sn_owed sn)
          && forallb (fun x : Z * bytes * Z =>
               existsb (fun c : bytes * Z => bytes_eqb (fst c) (snd (fst x))) (sn_owed sn) || (snd x =? 0)) (sn_owed_val sn)
       then [] else [91])
-  ++ (if forallb (fun c : bytes * Z => snd c mod prec =? 0) (sn_owed sn) then [] else [92]).
+  ++ (if negb (sn_books sn) || forallb (fun c : bytes * Z => snd c mod prec =? 0) (sn_owed sn) then [] else [92]).
 
 Fixpoint oracle_walk (pr : oparams) (k : Z) (h : Z) (ot : otrack) (prev : snap) (blk : list event) (blko : list iobs)
                      (es : list event) (os : list iobs) : list (Z * Z) :=
